@@ -40,7 +40,7 @@ def run(ck):
         g = dict(g)
         g["calls"] = [pcall(a, "list", extra=False) for a in COVERS]
         groups.append(g)
-    fam = gen.cover_families(ck.rng, 300 if q else 15000, maxn=12) + gen.near_miss_families(ck.rng, 60 if q else 600)
+    fam = gen.cover_families(ck.rng, 300 if q else 15000, maxn=12) + gen.near_miss_families(ck.rng, 60 if q else 600, giga=True)
     for g in fam:
         g = dict(g)
         g["calls"] = [pcall(a, "list", extra=False) for a in COVERS]
